@@ -106,6 +106,12 @@ pub enum Frame {
     Datagram {
         len: usize,
         data_at: usize,
+        /// identity carried by the harness payload (see `dgram_ident`): id, declared length, pattern ok
+        did: u64,
+        hlen: u64,
+        intact: bool,
+        /// wire size of the whole frame (type + length field + payload)
+        fsize: usize,
     },
     Unknown(u64),
 }
@@ -260,6 +266,27 @@ pub fn expand_pn(expected: u64, truncated: u64, nbits: u32) -> u64 {
     }
 }
 
+/// Payload convention of harness-made application datagrams: bytes 0..2 = id (big endian), bytes
+/// 2..4 = length (big endian), byte i >= 4 = (id + i) % 251; shorter payloads are a prefix of the
+/// header. Returns (id, declared length, whether every byte agrees with that convention).
+pub fn dgram_ident(b: &[u8]) -> (u64, u64, bool) {
+    let len = b.len();
+    let did = if len >= 2 { ((b[0] as u64) << 8) | b[1] as u64 } else { 0 };
+    let hlen = if len >= 4 { ((b[2] as u64) << 8) | b[3] as u64 } else { len as u64 };
+    let mut ok = hlen as usize == len;
+    if len == 3 {
+        ok &= b[2] == 0;
+    }
+    ok &= b.iter().enumerate().skip(4).all(|(i, &x)| x == ((did + i as u64) % 251) as u8);
+    (did, hlen, ok)
+}
+
+/// The payload `dgram_ident` accepts for (id, len)
+pub fn dgram_payload(did: u64, len: usize) -> Vec<u8> {
+    let hdr = [(did >> 8) as u8, did as u8, (len >> 8) as u8, len as u8];
+    (0..len).map(|i| if i < 4 { hdr[i] } else { ((did + i as u64) % 251) as u8 }).collect()
+}
+
 pub fn parse_frames(payload: &[u8]) -> (Vec<Frame>, bool) {
     let mut r = Rd::new(payload);
     let mut out = Vec::new();
@@ -279,6 +306,7 @@ pub fn parse_frames(payload: &[u8]) -> (Vec<Frame>, bool) {
 }
 
 fn parse_frame(r: &mut Rd<'_>) -> Option<Frame> {
+    let frame_start = r.p;
     let ty = r.var()?;
     Some(match ty {
         0x00 => {
@@ -417,8 +445,9 @@ fn parse_frame(r: &mut Rd<'_>) -> Option<Frame> {
                 r.left()
             };
             let data_at = r.p;
-            r.take(len)?;
-            Frame::Datagram { len, data_at }
+            let body = r.take(len)?;
+            let (did, hlen, intact) = dgram_ident(body);
+            Frame::Datagram { len, data_at, did, hlen, intact, fsize: r.p - frame_start }
         }
         x => {
             // unknown: cannot continue
